@@ -242,12 +242,16 @@ fn bprime_sanitize_mapping_geometry() {
 // ---------------------------------------------------------------------------
 // C04 / C15, tier B′ (native, this process as the target): enumerate_threads lists every thread of the
 // process exactly once with the name the kernel reports (trailing newline removed, nothing else).
-// Domain: 6 helper threads with names covering length 0..15, leading/inner whitespace and non-ASCII.
+// Domain: 10 helper threads with names covering length 0..15, leading/inner/trailing whitespace, non-ASCII, and two
+// names that are not UTF-8 in front of readable ones.
 // ---------------------------------------------------------------------------
 #[test]
 fn bprime_enumerate_threads_of_this_process() {
     use std::sync::{Arc, Barrier};
-    let names: [&[u8]; 6] = [b"plain", b"  lead er", b"\tw\xc3\xb6rker", b"fifteen-chars-x", b"in ner  sp", b"x"];
+    // the 3rd and 6th names are not UTF-8 (a 16-byte name of two-byte characters cut by the kernel at 15 bytes; a lone
+    // 0xff): their threads are listed without a name, one soft error each, and the readable names AFTER them are intact
+    let names: [&[u8]; 10] = [b"plain", b"  lead er", b"\xc3\xa9\xc3\xa9\xc3\xa9\xc3\xa9\xc3\xa9\xc3\xa9\xc3\xa9\xc3", b"\tw\xc3\xb6rker", b"fifteen-chars-x",
+                              b"a\xffb", b"in ner  sp", b"trail sp ", b"", b"x"];
     let start = Arc::new(Barrier::new(names.len() + 1));
     let stop = Arc::new(Barrier::new(names.len() + 1));
     let tids = Arc::new(std::sync::Mutex::new(Vec::new()));
@@ -258,7 +262,7 @@ fn bprime_enumerate_threads_of_this_process() {
             let mut buf = [0u8; 16];
             buf[..name.len()].copy_from_slice(name);
             unsafe { libc::prctl(libc::PR_SET_NAME, buf.as_ptr()); }
-            tids.lock().unwrap().push((unsafe { libc::gettid() }, String::from_utf8(name.to_vec()).unwrap()));
+            tids.lock().unwrap().push((unsafe { libc::gettid() }, String::from_utf8(name.to_vec()).ok()));
             start.wait();
             stop.wait();
         }));
@@ -292,7 +296,8 @@ fn bprime_enumerate_threads_of_this_process() {
     let mut got: Vec<Pid> = listed.iter().map(|t| t.0).collect();
     got.sort();
     assert_eq!(got, kernel, "every thread of the process exactly once");
-    assert!(errs.is_empty());
+    let unreadable = names.iter().filter(|n| std::str::from_utf8(n).is_err()).count();
+    assert_eq!(errs.len(), unreadable, "one soft error per thread whose name is not UTF-8, none for the others");
     let mut got2: Vec<Pid> = unnamed.iter().map(|t| t.0).collect();
     got2.sort();
     assert_eq!(got2, kernel, "a thread whose name cannot be read is still listed, exactly once");
@@ -301,7 +306,7 @@ fn bprime_enumerate_threads_of_this_process() {
     let mut n = 0;
     for (tid, name) in tids.lock().unwrap().iter() {
         let entry = listed.iter().find(|t| t.0 == *tid).expect("helper thread listed");
-        assert_eq!(entry.1.as_deref(), Some(name.as_str()), "thread {tid}: the name the kernel reports");
+        assert_eq!(entry.1.as_deref(), name.as_deref(), "thread {tid}: the name the kernel reports (none when it is not UTF-8)");
         n += 1;
     }
     println!("BPRIME evaluations={n}");
